@@ -370,6 +370,29 @@ def liveMem (lc : LiveCase) : TMem :=
 def liveCopy (lc : LiveCase) (ptraceOnly : Bool) (a n : Nat) : Option Bytes :=
   if n = 0 then none else if ptraceOnly then ptraceRead (liveMem lc) a n else copyFromProcess (liveMem lc) a n
 
+/-- the snapshot of the target's memory, one lookup per request -/
+def snapSlice (mem : List (Nat × ByteArray)) (a n : Nat) : Option Bytes :=
+  match mem.find? (fun (s, b) => s ≤ a && a + n ≤ s + b.size) with
+  | some (s, b) => some (b.extract (a - s) (a - s + n)).toList
+  | none => none
+
+/-- `liveCopy` for requests of at least a page, evaluated page by page (protections are per page): the vectored read
+    returns the prefix up to the first page without read permission; when the first page is not readable the reader
+    falls back to /proc/<pid>/mem and PTRACE_PEEKDATA, which read every mapped page and nothing of a range that runs
+    into a hole. `none` also when the snapshot does not hold the bytes (the caller treats that as "not covered"). -/
+def liveCopyFast (lc : LiveCase) (ptraceOnly : Bool) (a n : Nat) : Option Bytes :=
+  if n < 4096 then liveCopy lc ptraceOnly a n else
+  let m := liveMem lc
+  let p0 := a / 4096
+  let p1 := (a + n - 1) / 4096
+  let pages := (List.range (p1 - p0 + 1)).map (· + p0)
+  let readablePages := (pages.takeWhile (fun p => m.page p == some true)).length
+  if readablePages > 0 && !ptraceOnly then
+    let k := min n ((p0 + readablePages) * 4096 - a)
+    snapSlice lc.mem a k
+  else if pages.all (fun p => (m.page p).isSome) then snapSlice lc.mem a n
+  else none
+
 /-- the snapshot of the target's memory as a reader answering whole requests (for stacks: one lookup per request) -/
 def snapRead0 (mem : List (Nat × ByteArray)) (a n : Nat) : Option Bytes :=
   match mem.find? (fun (s, b) => s ≤ a && a + n ≤ s + b.size) with
@@ -451,7 +474,7 @@ def runLive07 (kv : List (String × String)) : IO Res := do
       idx := idx + 1
       let some exp := lc.thr.find? (fun e => e.tid == t.tid) | continue
       if exp.spin then continue
-      match gatherThread ⟨ms, 4096, snapRead0 lc.mem⟩ ⟨lc.cfg.limit, lc.cfg.sanitize, lc.cfg.principal.isSome, gprincipal⟩
+      match gatherThread ⟨ms, 4096, liveCopyFast lc ptraceOnly⟩ ⟨lc.cfg.limit, lc.cfg.sanitize, lc.cfg.principal.isSome, gprincipal⟩
           gcrash lc.cfg.blamed i n currPos ⟨t.tid, exp.rsp, exp.rip, []⟩ with
       | .ok d =>
         match d.stack with
@@ -529,7 +552,7 @@ def runLive06 (kv : List (String × String)) : IO Res := do
     let gip := if crashThread then greg lc.cfg.gregs REG_RIP else exp.rip
     let _ := gip
     let gcrash : Option CrashIn := if lc.cfg.crash.isSome then some ⟨greg lc.cfg.gregs REG_RSP, greg lc.cfg.gregs REG_RIP, []⟩ else none
-    let gthread := gatherThread ⟨ms, 4096, snapRead lc.mem⟩ ⟨lc.cfg.limit, lc.cfg.sanitize, lc.cfg.principal.isSome, gprincipal⟩
+    let gthread := gatherThread ⟨ms, 4096, liveCopyFast lc false⟩ ⟨lc.cfg.limit, lc.cfg.sanitize, lc.cfg.principal.isSome, gprincipal⟩
         gcrash lc.cfg.blamed i n currPos ⟨t.tid, exp.rsp, exp.rip, []⟩
     match (match gthread with | .ok d => Outcome.ok d.stack | .err e => .err e | .panic w => .panic w | .fuelOut => .fuelOut) with
     | .ok none =>
@@ -580,6 +603,18 @@ def runLive06 (kv : List (String × String)) : IO Res := do
           return .propfail s!"thread #{i} ({t.tid}): stack pointer {sp} lies below the first plausible stack mapping {valid}, but the captured region begins at {t.stackStart}" tags
       else if !(t.stackStart ≤ sp && sp < t.stackStart + t.stackSize) then
         return .propfail s!"thread #{i} ({t.tid}): captured stack [{t.stackStart},+{t.stackSize}) does not contain the stack pointer {sp}" tags
+      -- (a mapping that is not readable to its end — a part of the same file without read permission above the stack
+      -- pointer — gives a copy that ends there: "extends to the end of the containing mapping" is about readable
+      -- memory; the composed model above has the exact expectation for this case)
+      let readShort : Bool := match liveCopyFast lc false rs rl with
+        | some b => decide (b.length < rl)
+        | none => false
+      if readShort then tags := "stack.shortread" :: tags
+      if readShort then
+        if !(t.stackStart ≤ sp && sp < t.stackStart + t.stackSize) && sp ≥ valid then
+          return .propfail s!"thread #{i} ({t.tid}): captured stack [{t.stackStart},+{t.stackSize}) does not contain the stack pointer {sp}" tags
+        tags := "stack.checked" :: tags
+        continue
       if t.stackSize < len then
         -- shortened: only with a limit, at list position ≥ 20, never the crash-context thread, ≤ 2 KiB
         if lc.cfg.limit.isNone || i < 20 || crashThread then
